@@ -58,6 +58,7 @@ func genPlan(t *rapid.T) Plan {
 	ng := rapid.IntRange(1, 7).Draw(t, "ngroups")
 	shutdown := false
 	leaveInFlight := false
+	leftEarlier := false // a Leave call of an earlier group has returned
 	elapsed := 300 // the groups start 300 ms after the cluster formed
 	for g := 0; g < ng; g++ {
 		grp := Group{AfterMs: rapid.SampledFrom([]int{0, 1, 100, 700, 3000, 9000}).Draw(t, "after")}
@@ -66,6 +67,9 @@ func genPlan(t *rapid.T) Plan {
 		// when nobody is left to tell (alone from the start, or every peer departed a while ago): then they return at once
 		alone := !p.Frozen && (p.Peers == 0 || (p.PeersLeaveMs > 0 && elapsed >= p.PeersLeaveMs+1500))
 		if grp.AfterMs >= 100 {
+			if leaveInFlight {
+				leftEarlier = true
+			}
 			leaveInFlight = false // Leave(timeout<=60ms here) has long returned
 		}
 		nc := rapid.IntRange(1, 4).Draw(t, "ncalls")
@@ -94,7 +98,8 @@ func genPlan(t *rapid.T) Plan {
 				}
 			case "update":
 				call.Arg = rapid.SampledFrom([]int{5, 300}).Draw(t, "timeout")
-				if alone && !shutdown && rapid.Bool().Draw(t, "notimeout") {
+				// (once the node has left nothing is announced any more: no wait either, whoever is still around)
+				if (alone || leftEarlier) && !shutdown && rapid.Bool().Draw(t, "notimeout") {
 					call.Arg = 0
 				}
 			case "join", "besteffort", "reliable", "ping":
